@@ -636,7 +636,7 @@ Proof.
       * intros; discriminate.
   - inv_some Hs. thr_only Hg I Epc Rt. exact Logic.I.
   - (* WFwait *)
-    destruct (c_lock s =? 1); inv_some Hs; thr_only Hg I Epc Rt; exact Logic.I.
+    destruct (c_lock s =? 1); [destruct (Nat.eqb ch 2); [|destruct (Nat.eqb ch 3)]|]; inv_some Hs; thr_only Hg I Epc Rt; exact Logic.I.
   - (* WLoadR *)
     inv_some Hs. thr_only Hg I Epc Rt.
     destruct (i_RW _ _ I) as [RW1 RW2].
@@ -717,7 +717,7 @@ Proof.
     + reflexivity.
     + exact Epc.
   - (* RWait *)
-    destruct (c_wcur s =? t_w (c_thr s t)); inv_some Hs; thr_only Hg I Epc Rt; unfold know; simpl; exact Kt.
+    destruct (c_wcur s =? t_w (c_thr s t)); [destruct (Nat.eqb ch 2); [|destruct (Nat.eqb ch 3)]|]; inv_some Hs; thr_only Hg I Epc Rt; unfold know; simpl; exact Kt.
   - (* RMLock *)
     destruct (c_rmx s =? 0); [|discriminate Hs]. inv_some Hs. thr_only Hg I Epc Rt. exact Logic.I.
   - inv_some Hs. thr_only Hg I Epc Rt. exact Logic.I.
